@@ -15,6 +15,12 @@
  *       op codes: 1 pop, 2 try_pop, 3 is_empty, 100+j push, 200+n chain
  * out : hist: i<t>:<op> r<t>:<res> ... | stack: ids (drained with nolock_pop) | cnt=C |
  *       own: .. ; .. | steps: ..                                                        */
+#if defined(VERIF_RACE)
+/* race-exploration build (clang -fsanitize=thread + tsanrt.c): every plain or atomic access to the
+ * LIFO head and to the items yields; no macro interposition */
+#include "parsec/parsec_config.h"
+extern void race_share(const void *p, unsigned long len); extern void race_reset(void);
+#else
 #include "interpose.h"
 /* finer than interpose.h: a CAS is a step of its own (yield before and after), so the plain
  * accesses that precede and follow it belong to different steps */
@@ -24,6 +30,7 @@ static inline int cos_after(int r) { cos_yield(); return r; }
 #define parsec_atomic_cas_ptr(l,o,n)    (cos_yield(), cos_after(parsec_atomic_cas_ptr(l,o,n)))
 #define parsec_atomic_cas_int128(l,o,n) (cos_yield(), cos_after(parsec_atomic_cas_int128(l,o,n)))
 #define parsec_atomic_rmb()             (cos_yield(), parsec_atomic_rmb())
+#endif
 #include "cosched.h"
 #include "parsec/class/parsec_lifo.c"
 #include "hcommon.h"
@@ -37,7 +44,9 @@ static parsec_list_item_t items[MAXI] __attribute__((aligned(16)));
 typedef struct { int nops; long ops[MAXOPS]; int nown; int own[MAXI + 1]; } thr_t;
 static thr_t T_[COS_MAX];
 static char out[1 << 16]; static int outn;
-#define OUT(...) do { outn += snprintf(out + outn, sizeof(out) - outn - 1, __VA_ARGS__); if (outn > (int)sizeof(out) - 256) outn = sizeof(out) - 256; } while (0)
+/* the text is formatted first (argument evaluation may yield in the race build), then appended in one go */
+#define OUT(...) do { char b_[160]; int n_ = snprintf(b_, sizeof b_, __VA_ARGS__); if (n_ > 150) n_ = 150; \
+                      if (outn + n_ < (int)sizeof(out) - 8) { memcpy(out + outn, b_, (size_t)n_); outn += n_; out[outn] = 0; } } while (0)
 
 static int id_of(parsec_list_item_t *p) {
     if (p < items || p >= items + MAXI || ((char *)p - (char *)items) % sizeof(items[0])) return -1;
@@ -69,7 +78,8 @@ static void worker(void *arg) {
             if (p) { int k = id_of(p); if (k >= 0) own_front(T, k); OUT(" r%d:%d", t, k); }
             else OUT(" r%d:N", t);
         } else if (o == 3) {
-            OUT(" r%d:e%d", t, parsec_lifo_is_empty(&lifo) ? 1 : 0);
+            int e = parsec_lifo_is_empty(&lifo) ? 1 : 0;   /* evaluated before OUT: the call may yield in the race build */
+            OUT(" r%d:e%d", t, e);
         } else if (o >= 200) {
             int n = (int)(o - 200), m = n < T->nown ? n : T->nown, xs[MAXI];
             if (m == 0) { OUT(" r%d:p", t); continue; }
@@ -115,6 +125,9 @@ static void run_case(char *l) {
         if (ch) parsec_lifo_nolock_chain(&lifo, make_ring(s0, ns0));
         else for (int i = ns0 - 1; i >= 0; i--) parsec_lifo_nolock_push(&lifo, &items[s0[i]]);
     }
+#if defined(VERIF_RACE)
+    race_reset(); race_share(&lifo.lifo_head, sizeof(lifo.lifo_head)); race_share(items, sizeof(items));
+#endif
     cos_reset();
     for (int t = 0; t < nt; t++) cos_spawn(worker, (void *)(intptr_t)t);
     int dl = cos_run(sched, ns, 1000);
